@@ -512,6 +512,15 @@ class Gen:
             rhs = rng.randint(0, hz)
         return [rng.choice(["<", "<=", "==", "!=", ">=", ">"]), lhs, rhs]
 
+    @staticmethod
+    def _maybe_pybool(cond):
+        """about one condition in eight of Implies / IfThenElse is a plain Python bool (the annotated
+        type allows it). Decided from a digest of the drawn expression, not from the PRNG, so that
+        the rest of the plan is the one the same seed gave before this variant existed."""
+        import zlib, json as _json
+        h = zlib.crc32(_json.dumps(cond).encode())
+        return ["py", bool(h & 16)] if h % 8 == 0 else cond
+
     def gen_operand(self, depth):
         rng = self.rng
         r = rng.random()
@@ -539,10 +548,10 @@ class Gen:
             c["a"] = self.gen_operand(depth)
             c["b"] = self.gen_operand(depth)
         elif kind == "Implies":
-            c["cond"] = self.gen_bool_expr()
+            c["cond"] = self._maybe_pybool(self.gen_bool_expr())
             c["args"] = [self.gen_operand(depth) for _ in range(rng.choice([1, 1, 2]))]
         elif kind == "IfThenElse":
-            c["cond"] = self.gen_bool_expr()
+            c["cond"] = self._maybe_pybool(self.gen_bool_expr())
             c["then"] = [self.gen_operand(depth) for _ in range(rng.choice([1, 1, 2]))]
             c["else"] = [self.gen_operand(depth) for _ in range(rng.choice([1, 1, 2]))]
         return c
